@@ -27,6 +27,28 @@ CLAIMS = {
     "C05": dict(category="model_checking",
                 text="Grevm.tla has no stall timer: TLC's deadlock check on every explored block and <>Terminated under per-thread weak fairness (thorough tier) decide termination of the design, including abort, fallback and fatal paths; the counterexamples of the notification and re-offer guards are deadlocks that are replayed on the code. Under the controller park has no timeout, so a lost wake-up or lost re-offer in the real scheduler is a detected deadlock; runs cover 1-3 workers, error and fallback blocks, and a panic injected at every database key (the payload must reach the caller).",
                 design_ref="DESIGN.md 6 (C05)", note=SCHED_NOTE, technique=SCHED_TECH + " (deadlock / liveness)"),
+    "C06": dict(category="exploration",
+                text="Every block of a mixed family (conflict-heavy programs, fatal and stale-fatal blocks, invalid-transaction blocks, fee blocks, destroy / create blocks, EIP-7702 blocks and policy-enabled blocks generated from the rule cases of rules/Delegated.tla) is executed under a configuration matrix - 1/2/3/8 workers, min_parallel_txs 0 / n / n+1, force_sequential, entry point execute / fallback_sequential, repeated - and the observable (success or failing index and error, every outcome, the bundle with statuses, original values, storage and size accounting) must be identical across all configurations; the interleaving dimension is covered by controlled schedules of the same blocks against the in-order reference.",
+                design_ref="DESIGN.md 6 (C06)", note="uncontrolled real-thread runs for the matrix; policy blocks have the rule model and path agreement as oracle",
+                technique="configuration-matrix differential on blocks enumerated with TLC from the rule specification + controlled schedules"),
+    "C08": dict(category="model_checking",
+                text="The storage-reset rule (newest of reset marker and slot version, marker masks the backing store, storage written by the resetting transaction wins, both locations in the read set) is part of Grevm.tla and is model-checked through the whole pipeline on destroy-probe, create-with-storage-probe and destroy-recreate-probe blocks (guards GResetMasks / GCreatedWins are load-bearing); destroy / create2 / re-create / create+destroy in one transaction / EIP-161 empty-touch / reverted-destroy blocks with real bytecode run on Shanghai, Cancun and Prague under controlled schedules against stock revm (outcomes, bundle statuses and reverts, every readable value), and every recorded read is validated against the rule.",
+                design_ref="DESIGN.md 6 (C08)", note="forks before Shanghai are not exercised; " + SCHED_NOTE, technique=SCHED_TECH),
+    "C09": dict(category="exploration",
+                text="Blocks that deploy by create transaction and then call and extend the new contract (Shanghai, Cancun), and EIP-7702 blocks that set a delegation and call through it, inspect the account's code (EXTCODESIZE / EXTCODEHASH / BALANCE), re-point, clear and set it again with storage probes through the facade, with several authorities, a repeated authority and invalid authorisations (Prague, Osaka), run on 2-3 workers under controlled schedules and on the sequential path against stock revm; every recorded run is validated against Grevm.tla (generic multi-version read / validation rules applied to the Code and Basic locations).",
+                design_ref="DESIGN.md 6 (C09), 9", note="no dedicated model of code versions (stated in DESIGN.md 9); oracle: stock revm",
+                technique="controlled scheduler runs on EIP-7702 / deployment blocks against stock revm + TLC trace validation against Grevm.tla"),
+    "C11": dict(category="model_checking",
+                text="The scenario driver of all scheduler checks is a capability-restricted precompile: every storage and balance access of those blocks goes through the facade and appears in the trace with the version it resolved, so C01/C02's model checking and trace validation apply to facade accesses as to opcode accesses; in addition direct, nested, static and reverting call shapes, the sequential path and database faults under facade reads (persistent / fail-once at every key) are run against stock revm with the same adapter installed.",
+                design_ref="DESIGN.md 6 (C11)", note=SCHED_NOTE, technique=SCHED_TECH),
+    "C12": dict(category="exploration",
+                text="rules/Delegated.tla states the guard as a rule over call shapes (frame result, transaction kind, nonce advance, inner call flag) and TLC checks its consequences (exactness, nonce protection) and enumerates all 48 cases (6 shapes x CREATE/CREATE2 x guard on/off x Prague/Cancun); every case is realised with real bytecode and a delegation designator and run on the parallel (controlled schedules) and sequential path: where the rule says 'as stock' the block must equal stock revm bit for bit (outcomes, bundle), where it says halt the rule's observables are checked, including the validity of the delegated account's own later transaction.",
+                design_ref="DESIGN.md 6 (C12), 9", note="'everything else identical to stock revm' is bounded by the enumerated shapes",
+                technique="TLC case generation from a TLA+ rule specification + realisation on the real engine against stock revm / the rule"),
+    "C13": dict(category="exploration",
+                text="rules/Delegated.tla states the reserve rule (final balance < min(balance before the first protected debit, saturating sum of the maximum costs of the account's own later transactions) => charged top-level revert) and its consequence (an account fundable at block start is never skipped for lack of funds) as an ASSUME over all enumerated cases; TLC enumerates 72 cases (balance x amount x later transactions x policy) with verdict, validity of every later transaction and final balance; each is realised with an EIP-7702 delegated account and run on the parallel path under controlled schedules and on the sequential path, which must agree with each other and with the rule.",
+                design_ref="DESIGN.md 6 (C13), 9", note="debits by CALL value only; CREATE endowment, SELFDESTRUCT, credits before debits and inner reverts are not in the enumerated family",
+                technique="TLC case generation from a TLA+ rule specification + realisation on the real engine, path agreement"),
     "C07": dict(category="model_checking",
                 text="Beneficiary.tla (per-transaction history entries replaced by incarnation, readers scanning backwards one entry at a time, checked-add fold oldest-first, validation of the whole origin chain, incarnation-guarded record / invalidate) is model-checked on six scripts for: a read that passes the decisive validation equals the in-order credits, and the newest incarnation always wins; the production BeneficiaryHistory is driven by three writers and a reader through preemption-bounded schedules, every run validated against the specification; blocks with zero tips, mixed prices, the beneficiary as recipient / sender / reader, an absent beneficiary and a near-overflow balance run through the real scheduler against stock revm.",
                 design_ref="DESIGN.md 6 (C07)", note="history scripts of spec/beneficiary_scripts.json; fee families of spec/grevm_blocks.json (f_*); per-fork price rule exercised on Shanghai only",
